@@ -433,6 +433,9 @@ def mk_keyring(kr):
         return False
     if kr[0] == 1:
         return mk_key(kr[1])
+    if kr[0] == 3:
+        d3 = {N(ent[0]): mk_key(ent[1]) for ent in kr[1]}
+        return lambda message, name: d3.get(name)
     d = {}
     for ent in kr[1]:
         nm = N(ent[0])
@@ -510,20 +513,22 @@ def impl(case):
             c = mk_ctx(ctx)
             return sign_message_impl(bytes(wire), key, N(owner), rd, now, bytes(rmac), c, bool(multi), how)
         if op == 6:
-            _, w, kr, rmac, ctx, multi, now, _tab = case
+            _, w, kr, rmac, ctx, multi, now, _tab, origin = case
             c = mk_ctx(ctx)
             with clock(now):
-                m = dns.message.from_wire(bytes(w), keyring=mk_keyring(kr), request_mac=bytes(rmac), tsig_ctx=c, multi=bool(multi))
+                m = dns.message.from_wire(bytes(w), keyring=mk_keyring(kr), request_mac=bytes(rmac), tsig_ctx=c, multi=bool(multi),
+                                          origin=None if origin is None else N(origin))
             return msg_obs(m)
         if op == 7:
-            _, ws, kr, rmac, now, _tab = case
+            _, ws, kr, rmac, now, _tab, origin = case
             out = []
             c = None
             keyring = mk_keyring(kr)
+            org = None if origin is None else N(origin)
             for w in ws:
                 try:
                     with clock(now):
-                        m = dns.message.from_wire(bytes(w), keyring=keyring, request_mac=bytes(rmac), tsig_ctx=c, multi=True)
+                        m = dns.message.from_wire(bytes(w), keyring=keyring, request_mac=bytes(rmac), tsig_ctx=c, multi=True, origin=org)
                 except Exception as e:  # noqa
                     out.append(exc_code(e))
                     break
@@ -1155,7 +1160,7 @@ def read_table(w, keys, rmac, now, running=None, ctxkey=None, multi=False):
     return ents
 
 
-def read_case(w, kr, keys, rmac, now, ctx=None, multi=0):
+def read_case(w, kr, keys, rmac, now, ctx=None, multi=0, origin=None):
     running = ctx[1] if (ctx is not None and multi) else None
     ents = read_table(w, keys, rmac, now, running=running, ctxkey=ctx[0] if ctx else None, multi=bool(multi))
     if ctx is not None and multi:
@@ -1163,7 +1168,7 @@ def read_case(w, kr, keys, rmac, now, ctx=None, multi=0):
         ents.append(hent(ctx[0][2], ctx[0][1], ctx[1] + w))
     if ctx is not None:
         ents.append(hent(ctx[0][2], ctx[0][1], ctx[1]))
-    return [6, w, kr, rmac, ctx, multi, now, table(*ents)]
+    return [6, w, kr, rmac, ctx, multi, now, table(*ents), origin]
 
 
 def gen_realistic_read_case(rng):
@@ -1182,7 +1187,7 @@ def gen_realistic_read_case(rng):
     return kind, read_case(full, [1, k], [k], rmac, now)
 
 
-RKINDS = ["genuine", "genuine", "case", "compressed", "flip", "flip", "flip", "nokeyring", "kr-true", "kr-false", "dict", "dict-bytes",
+RKINDS = ["origin", "origin-dict", "origin-dict-bytes", "origin-callable", "genuine", "genuine", "case", "compressed", "flip", "flip", "flip", "nokeyring", "kr-true", "kr-false", "dict", "dict-bytes",
           "dict-miss", "secret", "time", "rmac", "error", "notlast", "notlast-sec", "class", "two", "ttl", "trailing", "trunc",
           "unsigned", "multi", "chain", "chain-unsigned"]
 
@@ -1218,11 +1223,20 @@ def gen_read_case(rng, kind=None):
     now = time + rng.choice([0, 1, -1, fudge, -fudge])
     kr = [1, k]
     keys = [k]
+    origin = None if rng.random() < 0.7 else gen_origin(rng, k[0])
     if kind == "flip":
         b = bytearray(full)
         i = rng.randrange(len(b) * 8) if rng.random() < 0.5 else rng.randrange(start * 8, len(b) * 8)
         b[i // 8] ^= 1 << (i % 8)
         full = bytes(b)
+    elif kind.startswith("origin"):
+        origin = gen_origin(rng, k[0]) or list(k[0][1:] if len(k[0]) > 1 else k[0])
+        if kind == "origin-dict":
+            kr = [2, [[case_variant(rng, k[0]), k]]]
+        elif kind == "origin-dict-bytes":
+            kr = [2, [[k[0], k[1]]]]
+        elif kind == "origin-callable":
+            kr = [3, [[k[0], k]]]
     elif kind == "nokeyring":
         kr = None
     elif kind == "kr-true":
@@ -1280,7 +1294,23 @@ def gen_read_case(rng, kind=None):
         full = full[: rng.randrange(len(full))]
     elif kind in ("unsigned", "chain-unsigned"):
         full = body
-    return kind, read_case(full, kr, keys, rmac, now, ctx, multi)
+    return kind, read_case(full, kr, keys, rmac, now, ctx, multi, origin)
+
+
+def gen_origin(rng, keyname):
+    """the origin argument of from_wire: None, unrelated, the key name itself, an ancestor of it, the root"""
+    r = rng.randrange(6)
+    if r == 0:
+        return None
+    if r == 1:
+        return gen_name(rng, tld=b"elsewhere")
+    if r == 2:
+        return case_variant(rng, list(keyname))
+    if r == 3 and len(keyname) > 2:
+        return list(keyname[1:])
+    if r == 4:
+        return list(keyname[-2:]) if len(keyname) >= 2 else [b""]
+    return [b""] if rng.random() < 0.3 else list(keyname[rng.randrange(len(keyname)):])
 
 
 def gen_stream(rng, n=None):
@@ -1350,7 +1380,9 @@ def gen_stream_cases(rng):
     now = base + rng.choice([0, 1, 2])
     yield "stream-sign", [8, [[w, ([list(k[2]), 0, f, b"\0" * rfc_alg(k[2])[1], oid, 0, b""] if s else None)] + ([t] if s else []) for (w, s, t, f, oid) in envs],
                           k, rmac, table(*ents)]
-    yield "stream-read", [7, ws, [1, k], rmac, now, table(*stream_read_table(ws, k, rmac))]
+    origin = gen_origin(rng, k[0])
+    kr7 = rng.choice([[1, k], [2, [[k[0], k]]], [2, [[k[0], k[1]]]], [3, [[k[0], k]]]])
+    yield "stream-read", [7, ws, kr7, rmac, now, table(*stream_read_table(ws, k, rmac)), origin]
     # tamper with one envelope (signed or not): everything from the next TSIG on must fail
     if ws:
         i = rng.randrange(len(ws))
@@ -1359,12 +1391,12 @@ def gen_stream_cases(rng):
         b[j // 8] ^= 1 << (j % 8)
         ws2 = list(ws)
         ws2[i] = bytes(b)
-        yield "stream-tamper", [7, ws2, [1, k], rmac, now, table(*stream_read_table(ws2, k, rmac))]
+        yield "stream-tamper", [7, ws2, [1, k], rmac, now, table(*stream_read_table(ws2, k, rmac)), None]
         if len(ws) > 2:
             # drop or swap intermediate envelopes
             j = rng.randrange(1, len(ws) - 1)
             ws3 = ws[:j] + ws[j + 1:]
-            yield "stream-drop", [7, ws3, [1, k], rmac, now, table(*stream_read_table(ws3, k, rmac))]
+            yield "stream-drop", [7, ws3, [1, k], rmac, now, table(*stream_read_table(ws3, k, rmac)), gen_origin(rng, k[0])]
 
 
 def gen_keyring_case(rng):
@@ -1649,12 +1681,18 @@ def oracle(ctx, kind, case, out):
         except Exception as e:  # noqa
             fail("a message the library signed does not validate under the same key: " + type(e).__name__, sig="self-reject")
     elif op == 6:
-        _, w, kr, rmac, cx, multi, now, _ = case
-        F += read_oracle(kind, w, kr, rmac, cx, multi, now, out)
+        _, w, kr, rmac, cx, multi, now, _, origin = case
+        F += read_oracle(kind, w, kr, rmac, cx, multi, now, out, origin)
     elif op == 7:
-        _, ws, kr, rmac, now, _ = case
-        k = kr[1]
+        _, ws, kr, rmac, now, _, origin = case
+        if kr[0] == 1:
+            k = kr[1]
+        else:
+            ent = kr[1][0]
+            k = ent[1] if not isinstance(ent[1], (bytes, bytearray)) else [ent[0], ent[1], walk_tsig_alg(ws)]
         running = None
+        if origin is not None and name_eq(origin, [b""]) and any(r["type"] == 41 for w in ws for r in walk(w)["rrs"]):
+            return F  # from_wire(origin=root) reports BadEDNS for every OPT record (its owner relativizes to the empty name)
         for i, w in enumerate(ws):
             if i >= len(out):
                 break
@@ -1774,7 +1812,19 @@ def oracle(ctx, kind, case, out):
     return F
 
 
-def read_oracle(kind, w, kr, rmac, cx, multi, now, out):
+def walk_tsig_alg(ws):
+    """algorithm name of the first TSIG record of a sequence (a bare-secret keyring takes it from there)"""
+    for w in ws:
+        for r in walk(w)["rrs"]:
+            if r["type"] == 250:
+                try:
+                    return walk_tsig_rdata(w, r["rdata"], r["rdlen"])["alg"]
+                except Malformed:
+                    return [b""]
+    return [b""]
+
+
+def read_oracle(kind, w, kr, rmac, cx, multi, now, out, origin=None):
     F = []
 
     def fail(what, **kw):
@@ -1795,7 +1845,7 @@ def read_oracle(kind, w, kr, rmac, cx, multi, now, out):
     key = None
     if isinstance(kr, list) and kr[0] == 1:
         key = kr[1]
-    elif isinstance(kr, list) and kr[0] == 2 and complete and rrs and rrs[-1]["type"] == 250:
+    elif isinstance(kr, list) and kr[0] in (2, 3) and complete and rrs and rrs[-1]["type"] == 250:
         for ent in kr[1]:
             if name_eq(ent[0], rrs[-1]["owner"]):
                 if isinstance(ent[1], (bytes, bytearray)):
@@ -1809,6 +1859,8 @@ def read_oracle(kind, w, kr, rmac, cx, multi, now, out):
                 break
     if kr == 0:
         return F  # validation disabled by the caller
+    if origin is not None and name_eq(origin, [b""]) and any(r["type"] == 41 for r in rrs):
+        return F  # from_wire(origin=root) relativizes the OPT owner to the empty name and reports BadEDNS: not a TSIG matter
     if key is None:
         if validated:
             fail("a signed message was accepted without a key", sig="no-key")
@@ -1960,7 +2012,7 @@ def extra(ctx):
                     okall = False
                 if okall:
                     F.append({"kind": "flip:stream-accepted", "what": "an unsigned intermediate envelope altered in one bit (envelope %d, bit %d) and the exchange still validated" % (j, bit),
-                              "case_kind": "stream-tamper", "case": [7, ws2, [1, k], rmac, base, table(*stream_read_table(ws2, k, rmac))], "sig": "stream-flip"})
+                              "case_kind": "stream-tamper", "case": [7, ws2, [1, k], rmac, base, table(*stream_read_table(ws2, k, rmac)), None], "sig": "stream-flip"})
                     break
     ctx.notes["exhaustive"] = True
     ctx.notes["extra_evaluations"] = nflips
